@@ -2143,3 +2143,127 @@ def inline_category_constants(tree):
         done.append(nm)
     ast.fix_missing_locations(tree)
     return done
+
+
+# ---------------------------------------------------------------------------------------------------------------------
+# a structural map over categories written once as a function
+# ---------------------------------------------------------------------------------------------------------------------
+def _structural_map_shape(fn):
+    """is fn `def M(c, f): if isinstance(c, Functor) [or c.is_functor]: return Functor(M(c.left, f), c.slash, M(c.right, f))
+    [or c.functor(M(c.left, f), M(c.right, f))]; return f(c)`?  -> (c, f) parameter names or None"""
+    if not isinstance(fn, ast.FunctionDef) or fn.decorator_list or len(fn.args.args) != 2 or fn.args.vararg or fn.args.kwarg or fn.args.kwonlyargs:
+        return None
+    c, f = fn.args.args[0].arg, fn.args.args[1].arg
+    body = [s for s in fn.body if not _is_doc(s)]
+    if len(body) == 1 and isinstance(body[0], ast.If) and len(body[0].orelse) == 1:
+        body = [ast.If(test=body[0].test, body=body[0].body, orelse=[]), body[0].orelse[0]]
+    if len(body) != 2 or not isinstance(body[0], ast.If) or body[0].orelse or len(body[0].body) != 1 or not isinstance(body[0].body[0], ast.Return) or not isinstance(body[1], ast.Return):
+        return None
+    test = ast.unparse(body[0].test).replace(' ', '')
+    if test not in ('isinstance(%s,Functor)' % c, '%s.is_functor' % c):
+        return None
+    rec = lambda side: '%s(%s.%s,%s)' % (fn.name, c, side, f)
+    built = ast.unparse(body[0].body[0].value).replace(' ', '').replace('\n', '')
+    if built not in ('Functor(%s,%s.slash,%s)' % (rec('left'), c, rec('right')), '%s.functor(%s,%s)' % (c, rec('left'), rec('right'))):
+        return None
+    if ast.unparse(body[1].value).replace(' ', '') != '%s(%s)' % (f, c):
+        return None
+    return c, f
+
+
+def unmap_structural(tree, resolve_def):
+    """`map_atoms(cat, fn)` -- rebuild a category with every atom replaced by fn(atom) -- reads as the recursion it
+    abbreviates.  (i) In a method m of class Functor whose body is `return M(self, lambda a: a.m(<m's own arguments>))`
+    the map is m itself on both sides (M(y, ..) is y.m(..) for an atom by the lambda and for a functor by this very
+    method): `return self.functor(self.left.m(..), self.right.m(..))`.  (ii) Elsewhere `M(E, F)` with F a lambda or a
+    closure defined next to the call becomes a local recursive reader
+        def rec(x): if x.is_functor: return x.functor(rec(x.left), rec(x.right)) else: <body of F for x>
+    called as rec(E)."""
+    cands = {}
+    names = {n.func.id for n in ast.walk(tree) if isinstance(n, ast.Call) and isinstance(n.func, ast.Name) and len(n.args) == 2 and not n.keywords}
+    for nm in sorted(names):
+        d = resolve_def(nm)
+        if d is not None and _structural_map_shape(d):
+            cands[nm] = d
+    if not cands:
+        return []
+    done = []
+    for cls in [c for c in ast.walk(tree) if isinstance(c, ast.ClassDef)]:
+        for m in [f for f in cls.body if isinstance(f, ast.FunctionDef)]:
+            body = [s for s in m.body if not _is_doc(s)]
+            if cls.name != 'Functor' or len(body) != 1 or not isinstance(body[0], ast.Return) or not isinstance(body[0].value, ast.Call):
+                continue
+            call = body[0].value
+            if not (isinstance(call.func, ast.Name) and call.func.id in cands and len(call.args) == 2 and isinstance(call.args[0], ast.Name)
+                    and call.args[0].id == m.args.args[0].arg and isinstance(call.args[1], ast.Lambda)):
+                continue
+            lam = call.args[1]
+            if len(lam.args.args) != 1 or not isinstance(lam.body, ast.Call) or not isinstance(lam.body.func, ast.Attribute) \
+                    or not isinstance(lam.body.func.value, ast.Name) or lam.body.func.value.id != lam.args.args[0].arg or lam.body.func.attr != m.name:
+                continue
+            own = [a.arg for a in m.args.args[1:]]
+            fwd = ','.join(own + (['*' + m.args.vararg.arg] if m.args.vararg else []))
+            got = ','.join(ast.unparse(a).replace(' ', '') for a in lam.body.args)
+            if got != fwd or lam.body.keywords:
+                continue
+            me = m.args.args[0].arg
+
+            def side(s_):
+                c_ = _clone(lam.body)
+                c_.func.value = ast.Attribute(value=_name(me), attr=s_, ctx=ast.Load())
+                return c_
+            new = ast.Call(func=ast.Attribute(value=_name(me), attr='functor', ctx=ast.Load()), args=[side('left'), side('right')], keywords=[])
+            body[0].value = ast.copy_location(new, call)
+            ast.fix_missing_locations(body[0])
+            done.append('%s.%s' % (cls.name, m.name))
+    for fn in [f for f in ast.walk(tree) if isinstance(f, FUNCS)]:
+        for body, i, s in list(_own_statements(fn)):
+            if not isinstance(s, (ast.Return, ast.Assign, ast.Expr)) or s.value is None:
+                continue
+            calls = [c for c in ast.walk(s.value) if isinstance(c, ast.Call) and isinstance(c.func, ast.Name) and c.func.id in cands and len(c.args) == 2 and not c.keywords]
+            if len(calls) != 1:
+                continue
+            call = calls[0]
+            F = call.args[1]
+            x = '%s__x' % call.func.id.strip('_')
+            rec_name = '%s__rec' % call.func.id.strip('_')
+            leaf = None
+            drop = None
+            if isinstance(F, ast.Lambda) and len(F.args.args) == 1 and not F.args.vararg and not F.args.kwarg:
+                leaf = [ast.Return(value=_Subst(names={F.args.args[0].arg: _name(x)}).visit(_clone(F.body)))]
+            elif isinstance(F, ast.Name):
+                local = [d for d in fn.body if isinstance(d, ast.FunctionDef) and d.name == F.id]
+                uses = [n for n in ast.walk(fn) if isinstance(n, ast.Name) and n.id == F.id]
+                if len(local) == 1 and len(uses) == 1 and len(local[0].args.args) == 1 and not local[0].decorator_list \
+                        and not any(isinstance(n, (ast.Yield, ast.YieldFrom, ast.Nonlocal, ast.Global)) for n in ast.walk(local[0])):
+                    p = local[0].args.args[0].arg
+                    if not any(isinstance(n, ast.Name) and n.id == p and isinstance(n.ctx, ast.Store) for n in ast.walk(local[0])):
+                        leaf = [_Subst(names={p: _name(x)}).visit(_clone(st_)) for st_ in local[0].body if not _is_doc(st_)]
+                        drop = local[0]
+                if leaf is None:
+                    leaf = [ast.Return(value=ast.Call(func=_name(F.id), args=[_name(x)], keywords=[]))]
+            if leaf is None:
+                continue
+            rc = lambda side_: ast.Call(func=_name(rec_name), args=[ast.Attribute(value=_name(x), attr=side_, ctx=ast.Load())], keywords=[])
+            rec_def = ast.FunctionDef(
+                name=rec_name,
+                args=ast.arguments(posonlyargs=[], args=[ast.arg(arg=x)], kwonlyargs=[], kw_defaults=[], defaults=[]),
+                body=[ast.If(test=ast.Attribute(value=_name(x), attr='is_functor', ctx=ast.Load()),
+                             body=[ast.Return(value=ast.Call(func=ast.Attribute(value=_name(x), attr='functor', ctx=ast.Load()), args=[rc('left'), rc('right')], keywords=[]))],
+                             orelse=leaf)],
+                decorator_list=[], returns=None, type_comment=None)
+            if hasattr(ast, 'TypeVar'):
+                rec_def.type_params = []
+            ast.copy_location(rec_def, s)
+            call.func = _name(rec_name)
+            call.args = [call.args[0]]
+            body.insert(body.index(s), rec_def)
+            if drop is not None and drop in fn.body:
+                fn.body.remove(drop)
+            for n in ast.walk(rec_def):
+                if isinstance(n, (ast.stmt, ast.expr)) and not hasattr(n, 'lineno'):
+                    n.lineno = n.end_lineno = s.lineno
+                    n.col_offset = n.end_col_offset = 0
+            ast.fix_missing_locations(fn)
+            done.append('%s:%s' % (getattr(fn, 'name', '?'), call.func.id))
+    return done
